@@ -197,12 +197,32 @@ def check_locality(case, rec):
                 got = mesh.point_data[key]
                 cmp(np.asarray(got).T if g == "VectorField" else got, ref, "mesh.point_data")
             else:
-                cells = np.array([[i, (i + 1) % n] for i in range(n)])
-                mesh = meshio.Mesh(pts3, [("line", cells)])
-                cent = pts3[cells].mean(axis=1).T[:dim]
+                # 1-4 cell blocks of different types and sizes (the flat result is cut back into the blocks)
+                prs = np.random.RandomState(case["perm_seed"])
+                nblk = 1 + case["perm_seed"] % 4
+                kinds_ = [("line", 2), ("triangle", 3), ("quad", 4), ("vertex", 1)]
+                blocks = []
+                for b in range(nblk):
+                    name_, k_ = kinds_[(b + case["perm_seed"] // 4) % 4]
+                    ncell = 1 + int(prs.randint(0, 2 * n))
+                    blocks.append((name_, prs.randint(0, n, size=(ncell, k_))))
+                mesh = meshio.Mesh(pts3, blocks)
+                cents = [pts3[c].mean(axis=1).T[:dim] for _nm, c in blocks]
+                cent = np.concatenate(cents, axis=1)
                 refc = _ref_single(model, case, cent)
                 f = lib(srf.mesh, mesh, points="centroids", direction=list(range(dim)), _tags=tags)
                 cmp(f, refc, "meshio cell centroids")
+                rec.label(f"mesh_cell_blocks_{nblk}")
+                stored = mesh.cell_data["field"]
+                require(len(stored) == nblk, f"mesh.cell_data holds {len(stored)} blocks for {nblk} cell blocks", dict(tags, kind="mesh_blocks"))
+                off = 0
+                for b, (nm_, c) in enumerate(blocks):
+                    want_b = refc[:, off : off + len(c)] if g == "VectorField" else np.asarray(refc).reshape(-1)[off : off + len(c)]
+                    got_b = np.asarray(stored[b])
+                    got_b = got_b.T if g == "VectorField" else got_b
+                    require(got_b.shape == want_b.shape, f"mesh.cell_data block {b} ({nm_}) has shape {np.asarray(stored[b]).shape} for {len(c)} cells", dict(tags, kind="mesh_blocks"))
+                    cmp(got_b, want_b, f"mesh.cell_data block {b} ({nm_}) of {nblk}")
+                    off += len(c)
         rec.nontrivial(n >= 3)
 
 
